@@ -216,8 +216,8 @@ def run(tier, seed):
                                    depth=60, seed=seed, limit=2500 if thorough else 250)
     rnd = random_schedules(seed, 2000 if thorough else 250, thorough)
     # stage 2+3 (each schedule runs on v1 and on v2)
-    vlib.conformance(o, FAMILY, "AggSigDBTrace", "AggSigDBTrace.cfg", "c17", scheds, tag="tlcgen", chunk=40)
-    vlib.conformance(o, FAMILY, "AggSigDBTrace", "AggSigDBTrace.cfg", "c17", rnd, tag="random", chunk=40)
+    vlib.conformance(o, FAMILY, "AggSigDBTrace", "AggSigDBTrace.cfg", "c17", scheds, tag="tlcgen", chunk=125)
+    vlib.conformance(o, FAMILY, "AggSigDBTrace", "AggSigDBTrace.cfg", "c17", rnd, tag="random", chunk=125)
     if not o.violations:
         tr = vlib.split_traces(vlib.read_ndjson(vlib.workdir("C17") + "/trace_random.ndjson"))
         vlib.binding_selftest(o, FAMILY, "AggSigDBTrace", "AggSigDBTrace.cfg", tr, mutators())
